@@ -52,6 +52,9 @@ func (prop) Judge(b core.Batch, recs []core.Rec, exits []core.Exit) []core.Resul
 				out = append(out, core.Result{K: r.K, Verdict: core.Violated, Sig: "C01|" + svc + "|service-stops-answering",
 					What: fmt.Sprintf("after scenario %d a well-formed dialogue on a new connection got %d reply bytes; before the workload the service gave %d bytes deterministically (same prefix: %d)", hr.K, hr.Got, hr.Want, hr.Same), Witness: hr})
 			}
+		case "idlegrow":
+			out = append(out, core.Result{K: r.K, Verdict: core.Violated, Sig: "C01|" + svc + "|memory-grows-without-client-input",
+				What: "with every client gone, heap and resident memory kept growing (two windows of 450 ms one second apart, more than 24 MiB each): a handler spins on input it has already received", Witness: r.X})
 		case "idlemem":
 			var ms []struct{ Heap, RSS uint64 }
 			if r.XInto(&ms) == nil && len(ms) >= 3 {
